@@ -720,7 +720,11 @@ pub(crate) fn parse_strings(
                 Expr::Constant(ast::ExprConstant {
                     value: Constant::Str(value),
                     ..
-                }) => current.push(value),
+                }) => {
+                    if !value.is_empty() {
+                        current.push(value)
+                    }
+                }
                 _ => unreachable!("Unexpected non-string expression."),
             }
         }
